@@ -628,19 +628,15 @@ impl<C: Config, Q: Query> Snapshot<C, Q> {
 
     pub(super) async fn get_backward_projection_lock_guard(
         mut self,
-        caller_information: &CallerInformation,
     ) -> Option<(Self, BackwardProjectionLockGuard<C>)> {
         let pending_backward_projection =
             PendingBackwardProjection { notify: Arc::new(Notify::new()) };
 
         let engine = self.engine().clone();
 
-        // double check if we really need to get the lock
-        if self
-            .pending_backward_projection()
-            .await
-            .is_none_or(|x| x.0 != caller_information.timestamp())
-        {
+        // double check if we really need to get the lock: the same condition
+        // as in `fast_path`, a marker of any timestamp is still to be done
+        if self.pending_backward_projection().await.is_none() {
             return None;
         }
 
@@ -688,7 +684,7 @@ impl<C: Config, Q: Query> Snapshot<C, Q> {
                 .map(|x| (x.0, WriteGuard::ComputingLockGuard(x.1))),
 
             SlowPath::BaackwardProjection => self
-                .get_backward_projection_lock_guard(caller_information)
+                .get_backward_projection_lock_guard()
                 .await
                 .map(|x| (x.0, WriteGuard::BackwardProjectionLockGuard(x.1))),
         }
